@@ -245,6 +245,14 @@ def build(ctx, version, o, route, rng):
                 return stix2.parse(json.dumps(o), allow_custom=True)
             cls = cls_for(version, o["type"])
             kw = native.to_native(version, o, rng, over_precise=True)
+            if rng.random() < 0.25:
+                # leave what the library supplies from the clock (created / modified / valid_from ...) to the library
+                tbl = M.model(version).types.get(o["type"], {}).get("by_name", {})
+                dropped = [k for k in list(kw) if tbl.get(k, {}).get("library_default_now")]
+                if set(dropped) >= {"created", "modified"} or "modified" not in kw:
+                    for k in dropped:
+                        kw.pop(k)
+                    ctx.count("constructed_with_clock_defaults")
             return cls(allow_custom=True, **kw)
     except Exception as e:
         ctx.skip("construction refused (%s) -- C03's subject, not round trip" % type(e).__name__)
@@ -366,9 +374,22 @@ def wl_containers(ctx, rng, i):
     if [x for x in validator.validate(od, "2.0") if x[0] != "integer-type-range"]:
         ctx.skip("generator error")
         return
+    unknown = None
+    if i % 4 == 1:
+        # an element of an unregistered type: kept as a dictionary, and emitted exactly as given
+        unknown = {"type": "x-stixmon-unregistered-observable", "foo": "bar", "n": [1, {"a": None}][0]}
+        od["objects"] = dict(cont)
+        od["objects"][str(len(cont) + 5)] = unknown
     obj = build(ctx, "2.0", od, "parse" if i % 2 == 0 else "constructor", rng)
     if obj is None:
         return
+    if unknown is not None:
+        ctx.ev()
+        got = json.loads(obj.serialize())["objects"].get(str(len(cont) + 5))
+        ctx.count("unregistered_elements")
+        if got != unknown:
+            ctx.violation("unregistered-element-not-emitted-as-given", "an observed-data element of an unregistered type is serialised differently from what was given",
+                          {"given": unknown, "emitted": got})
     check_object(ctx, obj, "2.0", "container", rng, full_lattice=(i % 10 == 0))
 
 
